@@ -269,7 +269,22 @@ pub fn run(tier: &str, seed: u64, out: &str) {
             }
         }
     }
+    // ---- long histories (a table's behaviour may change once it holds 2^k entries)
+    let n_long: u64 = if tier == "thorough" { (1 << 23) + (1 << 16) } else { (1 << 21) + (1 << 16) };
+    let long_res: Vec<Result<(u64, u64), String>> = par_map(&[0u8, 1u8], |v| long_history(n_long, seed, *v));
+    let mut long_steps = 0u64;
+    let mut long_dropped = 0u64;
+    for (v, r) in long_res.iter().enumerate() {
+        match r {
+            Ok((n, d)) => {
+                long_steps += n;
+                long_dropped += d;
+            }
+            Err(e) => rep.violation(format!("C15 long-history variant={}", v), e.clone(), vec!["c15-long".into(), "--steps".into(), n_long.to_string(), "--variant".into(), v.to_string(), "--seed".into(), seed.to_string()], J::Null),
+        }
+    }
     let cov = J::obj()
+        .set("long_histories", J::obj().set("steps", long_steps).set("deep_entry_dropped_and_restored", long_dropped).set("rule", "a depth-9 store for one key, then up to the listed number of stores for other distinct keys (pseudo-random keys; consecutive keys); after every one of them the key is read back, a depth-3 store for it is tried and it is read back again: the shallower result must never replace the deeper one and what comes back must be what was stored"))
         .set("states", seen.len())
         .set("transitions", transitions)
         .set("traces_validated_against_impl", validated + sequences + wide_sequences)
@@ -288,6 +303,96 @@ pub fn run(tier: &str, seed: u64, out: &str) {
             J::Str("key0=".to_string() + &format!("{:#018x} key1={:#018x} key2={:#018x} never={:#018x}", ks[0], ks[1], ks[2], ks[3])),
         ]));
     rep.finish("model_checking", cov, vec!["keys, depths and payloads outside the alphabet behave like those inside it (the table is a HashMap keyed by the full 64-bit key)".into()], out);
+}
+
+/// Long histories: one deep store for a key, then up to `n_max` stores for other, distinct keys.
+/// After EVERY one of them a shallower store for the first key is tried (on a correct table it
+/// is declined, so it is free of side effects and can be repeated at every step) and the key is
+/// read back: whatever the table does once it holds 2^k entries (a second generation, a resize,
+/// ageing), a shallower result must still not replace the deeper one, and what comes back must be
+/// what the map model holds. If the table is seen to have dropped the deep entry (allowed), it is
+/// stored again and the sweep goes on. Returns (steps done, times the deep entry was dropped).
+pub fn long_history(n_max: u64, seed: u64, variant: u8) -> Result<(u64, u64), String> {
+    let pl = payloads();
+    let key = 0x9E37_79B9_7F4A_7C15u64.wrapping_mul(seed.wrapping_add(3)) | 1;
+    let r = guard(|| -> Result<(u64, u64), String> {
+        let mut tt = TranspositionTable::new();
+        let deep = 9u8;
+        let shallow = 3u8;
+        tt.store(key, pl[0].eval, pl[0].mv, deep, pl[0].bounds);
+        let mut held: Option<(u8, usize)> = Some((deep, 0));
+        let mut dropped = 0u64;
+        let mut filler = key;
+        for i in 1..=n_max {
+            // distinct filler keys: odd multiplier walk (variant 1: consecutive keys, which fill
+            // a table indexed by the low bits slot after slot)
+            filler = if variant == 1 { filler.wrapping_add(2) } else { filler.wrapping_mul(0xD130_2B4F_5A8C_9E6B).wrapping_add(0x1234_5678_9ABC_DEF1) | 1 };
+            if filler == key {
+                continue;
+            }
+            let fp = &pl[(i % 3) as usize];
+            tt.store(filler, fp.eval, fp.mv, (i % 4) as u8, fp.bounds);
+            let same = |e: &crate::transposition::Entry, d: u8, p: usize| e.hash_key == key && e.depth == d && e.eval == pl[p].eval && e.best_move == pl[p].mv && e.bounds == pl[p].bounds;
+            // is the deep entry still there after the other key's store? (a bounded table may
+            // have evicted it: allowed; it is then stored again and this step ends)
+            match (tt.retrieve(key).into_entry(), held) {
+                (None, _) => {
+                    dropped += 1;
+                    tt.store(key, pl[0].eval, pl[0].mv, deep, pl[0].bounds);
+                    held = tt.retrieve(key).into_entry().map(|_| (deep, 0));
+                    continue;
+                }
+                (Some(e), Some((d, p))) => {
+                    if !same(&e, d, p) {
+                        return Err(format!("after {} stores for other keys: retrieve(key) = {:?}, the map model holds depth {} payload {}", i, e, d, p));
+                    }
+                }
+                (Some(e), None) => return Err(format!("after {} stores for other keys: retrieve(key) = {:?} although the table had dropped the key and nothing was stored for it since", i, e)),
+            }
+            // the entry is there: a shallower store for the same key must leave it alone
+            tt.store(key, pl[2].eval, pl[2].mv, shallow, pl[2].bounds);
+            match (tt.retrieve(key).into_entry(), held) {
+                (None, _) => {
+                    dropped += 1;
+                    tt.store(key, pl[0].eval, pl[0].mv, deep, pl[0].bounds);
+                    held = tt.retrieve(key).into_entry().map(|_| (deep, 0));
+                }
+                (Some(e), Some((d, p))) => {
+                    if !same(&e, d, p) {
+                        return Err(format!(
+                            "a depth-{} entry for a key, then {} stores for other keys (the entry was still returned), then a depth-{} store for the first key: retrieve now gives depth {} eval {} -- a shallower result replaced the deeper one",
+                            d, i, shallow, e.depth, e.eval
+                        ));
+                    }
+                }
+                (Some(e), None) => {
+                    if same(&e, shallow, 2) {
+                        held = Some((shallow, 2));
+                    } else {
+                        return Err(format!("after {} stores for other keys and a depth-{} store for the key: retrieve(key) = {:?}, which was never stored", i, shallow, e));
+                    }
+                }
+            }
+        }
+        Ok((n_max, dropped))
+    });
+    match r {
+        Ok(x) => x,
+        Err(e) => Err(e),
+    }
+}
+
+pub fn replay_long(n_max: u64, seed: u64, variant: u8) -> i32 {
+    match long_history(n_max, seed, variant) {
+        Ok(_) => {
+            println!("REPLAY-OK C15 long history {} steps", n_max);
+            0
+        }
+        Err(e) => {
+            println!("REPLAY-VIOLATION C15 long history :: {}", e);
+            1
+        }
+    }
 }
 
 pub fn replay(seq: &str, seed: u64) -> i32 {
